@@ -49,8 +49,10 @@ func Test_Finding_C06a_StreamstatsDependsOnBatchBoundaries(t *testing.T) {
 		return &structs.StreamStatsOptions{Window: 3, MeasureOperations: m}
 	}
 	one := findingC06aRun(t, window, "sum(http_status)", data, nil)
-	two := findingC06aRun(t, window, "sum(http_status)", data, []int{4})
-	require.Equal(t, one, two, "streamstats window=3 sum(http_status): one batch of 6 rows vs batches of 4+2 rows")
+	for cut := 1; cut < 6; cut++ {
+		two := findingC06aRun(t, window, "sum(http_status)", data, []int{cut})
+		require.Equal(t, one, two, "streamstats window=3 sum(http_status): one batch of 6 rows vs batches of %d+%d rows", cut, 6-cut)
+	}
 
 	resetOnChange := func() *structs.StreamStatsOptions {
 		m := []*structs.MeasureAggregator{{MeasureCol: "http_status", MeasureFunc: sutils.Count}}
@@ -58,6 +60,8 @@ func Test_Finding_C06a_StreamstatsDependsOnBatchBoundaries(t *testing.T) {
 			GroupByRequest: &structs.GroupByRequest{GroupByColumns: []string{"http_method"}, MeasureOperations: m}}
 	}
 	one = findingC06aRun(t, resetOnChange, "count(http_status)", data, nil)
-	two = findingC06aRun(t, resetOnChange, "count(http_status)", data, []int{3})
-	require.Equal(t, one, two, "streamstats reset_on_change by http_method: one batch vs batches of 3+3 rows (rows 3 and 4 are both GET)")
+	for cut := 1; cut < 6; cut++ {
+		two := findingC06aRun(t, resetOnChange, "count(http_status)", data, []int{cut})
+		require.Equal(t, one, two, "streamstats reset_on_change by http_method: one batch vs batches of %d+%d rows (rows 3 and 4 are both GET)", cut, 6-cut)
+	}
 }
